@@ -174,7 +174,8 @@ enumerated; this section only records where the build differs from the design.
   delivered until it speaks again - by design, handled by a trailer in the driver and stated as an assumption.
 * **C05** `Registry.tla` is a sequential reference model (histories) rather than a step model; the races are in
   `RegistRace.tla`. HLS access ("recent" by instants) was added after seed C05-3. A free-running leg looks the path
-  up from three goroutines while a retired stream is unregistered (after seed C05-5).
+  up from three goroutines while a retired stream is unregistered (after seed C05-5). The operation `shutdown` (what Service.Close
+  does to the media centre) was added to `Registry.tla` late and exposed a genuine defect (retired streams survived it).
 * **C03** additionally has a converter leg: `ConvLoop.tla` (loop / Close protocol of the three conversion goroutines,
   bare signal as negative control) and the schedule "Close between the loop condition and Pop" forced on the real
   converters through the hook `conv.loop` - a genuine defect, fixed in 2c6d1fe.
